@@ -280,11 +280,14 @@ func (d Decimal) Div(input Decimal) Decimal {
 
 // FloorDiv divides d by input and rounds down.
 func (d Decimal) FloorDiv(input Decimal) (Integer, error) {
-	result := decimal.Decimal(d).Div(decimal.Decimal(input)).IntPart()
-	if (result < math.MinInt32) || (result > math.MaxInt32) {
+	// QuoRem with precision 0 yields the exact quotient truncated toward zero
+	// (Div rounds to 16 places first, and IntPart wraps beyond 64 bits).
+	quotient, _ := decimal.Decimal(d).QuoRem(decimal.Decimal(input), 0)
+	result := quotient.BigInt()
+	if !result.IsInt64() || result.Int64() < math.MinInt32 || result.Int64() > math.MaxInt32 {
 		return 0, ErrIntOverflow
 	}
-	return Integer(int32(result)), nil
+	return Integer(int32(result.Int64())), nil
 }
 
 // Mod computes d % input.
